@@ -14,6 +14,7 @@ func (g *Generator) parseFields(pkg *packages.Package, typeName string, tagMap, 
 
 	*ptrTypeMap = make(map[string]string)
 	var fields []*Field
+	skipped := make(map[string]bool)
 	for _, f := range pkg.Syntax {
 		ast.Inspect(f, func(n ast.Node) bool {
 			if !g.testNode(typeName, n) {
@@ -32,7 +33,7 @@ func (g *Generator) parseFields(pkg *packages.Package, typeName string, tagMap, 
 			if tagMap != nil {
 				tags = *tagMap
 			}
-			g.extractTopFiels(pkg, st, tags, *ptrTypeMap, &fields)
+			g.extractTopFiels(pkg, st, tags, *ptrTypeMap, skipped, &fields)
 			return false
 		})
 	}
@@ -40,6 +41,10 @@ func (g *Generator) parseFields(pkg *packages.Package, typeName string, tagMap, 
 		return nil
 	}
 	for _, f := range fields {
+		if skipped[f.Name] {
+			//hidden by a left-out top-level field of the same name
+			continue
+		}
 		if ast.IsExported(f.Name) {
 			*exportedFields = append(*exportedFields, f)
 		} else {
@@ -74,7 +79,7 @@ func getMapTag(tag string) string {
 	return matches[1]
 }
 
-func (g *Generator) extractTopFiels(pkg *packages.Package, st *ast.StructType, tagMap, ptrTypeMap map[string]string, fields *[]*Field) {
+func (g *Generator) extractTopFiels(pkg *packages.Package, st *ast.StructType, tagMap, ptrTypeMap map[string]string, skipped map[string]bool, fields *[]*Field) {
 	for _, f := range st.Fields.List {
 		if len(f.Names) == 0 {
 			//embedded: gorm.Model
@@ -87,6 +92,9 @@ func (g *Generator) extractTopFiels(pkg *packages.Package, st *ast.StructType, t
 		if f.Tag != nil {
 			tag := getMapTag(f.Tag.Value)
 			if tag == "-" {
+				for _, n := range f.Names {
+					skipped[n.Name] = true
+				}
 				continue
 			}
 			if tag != "" && tagMap != nil {
